@@ -43,3 +43,55 @@ func (w *World) faultsTouched(chain string) bool {
 	}
 	return false
 }
+
+// lastScriptedMs is the time of the last scripted environment action of the
+// plan (adversary moves, watcher registrations, chain events): a run is not
+// quiescent before everything scripted has happened.
+func (w *World) lastScriptedMs() int {
+	m := 0
+	up := func(v int) {
+		if v > m {
+			m = v
+		}
+	}
+	p := w.Plan
+	for _, a := range p.Adv {
+		up(a.AtMs)
+	}
+	for _, c := range p.Chain {
+		up(c.AtMs)
+	}
+	for _, ws := range p.Watch {
+		up(ws.BroadcastMs)
+		up(ws.RegisterMs)
+	}
+	if c := p.AdvCfg; c != nil {
+		up(c.StartMs)
+		for _, r := range c.Requests {
+			up(r.AtMs)
+		}
+		for _, r := range c.Polls {
+			up(r.AtMs)
+		}
+		for _, r := range c.Spends {
+			up(r.AtMs)
+		}
+	}
+	return m
+}
+
+// noteServedAt records when a task was last told a chain height (called with n.mu held).
+func (n *Node) noteServedAt(task, chain string) {
+	if n.ext.servedAt == nil {
+		n.ext.servedAt = map[string]time.Duration{}
+	}
+	n.ext.servedAt[task+"/"+chain] = n.w.Sim.Now()
+}
+
+// ServedAtToTask: when the task was last told the height of chain.
+func (n *Node) ServedAtToTask(task, chain string) (time.Duration, bool) {
+	n.mu.Lock()
+	defer n.mu.Unlock()
+	t, ok := n.ext.servedAt[task+"/"+chain]
+	return t, ok
+}
